@@ -205,12 +205,17 @@ def basis_spline(  # pylint: disable=dangerous-default-value  # always replaced 
                 + (1 - alpha(i + 1, d)) * cache[(d - 1) % 2][i + 1]
             )
 
+    # Missing inputs (including those set to NaN by extrapolation="na") only
+    # propagate through the `alpha` weights, which are absent at degree 0 and
+    # for basis functions whose knots coincide: mask them explicitly.
+    isnan = numpy.isnan(numpy.asarray(x, dtype=float))
+    basis = {
+        i: (numpy.where(isnan, numpy.nan, values) if isnan.any() else values)
+        for i, values in cache[degree % 2].items()
+    }
+
     return FactorValues(
-        {
-            i: cache[degree % 2][i]
-            for i in sorted(cache[degree % 2])
-            if i > 0 or include_intercept
-        },
+        {i: basis[i] for i in sorted(basis) if i > 0 or include_intercept},
         kind="numerical",
         spans_intercept=include_intercept,
         drop_field=0,
